@@ -1,7 +1,11 @@
 //! Runtime-verification harness for OxiDD (see /verif/DESIGN.md).
 #![allow(clippy::type_complexity, clippy::too_many_arguments)]
 
+pub mod audit;
+pub mod canon;
 pub mod ctx;
+pub mod hist;
+pub mod known;
 pub mod kinds;
 pub mod rng;
 pub mod tt;
